@@ -767,9 +767,9 @@ class VecExpr:
 
 
 def gen_base():
+    L = ["(* GENERATED from /repo/lbfgsb by harness/translate.py - do not edit *)",
+         "From Coq Require Import List String ZArith Floats.PrimFloat.", "From LBFGSB Require Import Model.FloatVec Model.NumpyOps.", "Import ListNotations.", ""]
     tree = ast.parse(_src("base.py"))
-    L = ["(* GENERATED from /repo/lbfgsb/base.py and main.py by harness/translate.py - do not edit *)",
-         "From Coq Require Import List String Floats.PrimFloat.", "From LBFGSB Require Import Model.FloatVec.", "Import ListNotations.", ""]
     # projgr: a single return statement
     fn = _func(tree, "projgr")
     args = [a.arg for a in fn.args.args]
@@ -832,6 +832,25 @@ def gen_base():
         raise TranslateError("the projection sites are not the same expression")
     L.append(f"Definition projected_point (x : vec) (a : float) (d lb ub : vec) : vec := {terms.pop()}.")
     L.append("Definition projection_sites_src : list string := [" + "; ".join(coq_string(w + ": " + ast.unparse(c_)) + "%string" for w, c_, _ in sites) + "].")
+    # the call sites in main.py: is_boxed, the loop guard and the final test
+    mt = ast.parse(_src("main.py"))
+    mf = _func(mt, "minimize_lbfgsb")
+    boxed = [st for st in ast.walk(mf) if isinstance(st, (ast.Assign, ast.AnnAssign)) and ast.unparse(st.targets[0] if isinstance(st, ast.Assign) else st.target) == "is_boxed"]
+    if len(boxed) != 1:
+        raise TranslateError("is_boxed assignment not found")
+    L.append("Local Open Scope string_scope.")
+    L.append("Definition is_boxed_src : string := " + coq_string(ast.unparse(boxed[0].value)) + ".")
+    c2b = sorted({ast.unparse(st) for st in ast.walk(mf) if isinstance(st, ast.Assign) and isinstance(st.value, ast.Call) and ast.unparse(st.value.func) == "clip2bounds"})
+    calls = sorted({ast.unparse(c) for c in ast.walk(mf) if isinstance(c, ast.Call) and ast.unparse(c.func) == "projgr"})
+    L.append("Definition projgr_call_sites_src : list string := [" + "; ".join(coq_string(c) for c in calls) + "].")
+    L.append("Definition clip2bounds_call_sites_src : list string := [" + "; ".join(coq_string(c) for c in c2b) + "].")
+    return "\n".join(L) + "\n"
+
+
+def gen_bfgsmem():
+    L = ["(* GENERATED from /repo/lbfgsb by harness/translate.py - do not edit *)",
+         "From Coq Require Import List String ZArith Floats.PrimFloat.", "From LBFGSB Require Import Model.FloatVec Model.NumpyOps.", "Import ListNotations.", ""]
+    bt = ast.parse(_src("bfgsmats.py"))
     # bfgsmats.is_update_X_and_G (the curvature test): assignments, then `if <test>: return True` / `return False`
     bt = ast.parse(_src("bfgsmats.py"))
     fn = _func(bt, "is_update_X_and_G")
@@ -868,11 +887,16 @@ def gen_base():
             and isinstance(tr_.test, ast.Compare) and len(tr_.test.ops) == 1 and isinstance(tr_.test.ops[0], ast.Gt)
             and ast.unparse(tr_.test.left) == "len(X)" and ast.unparse(tr_.test.comparators[0]) == "maxcor + 1"):
         raise TranslateError("update_X_and_G: unexpected trimming statement " + ast.unparse(tr_))
-    L.append("From Coq Require Import ZArith.")
     L.append("Definition update_X_and_G (vdot : vec -> vec -> float) (xk gk : vec) (X G : list vec) (maxcor : Z) (eps : float) : bool * list vec * list vec :=\n"
              "  if negb (is_update_X_and_G vdot xk gk (List.last X []) (List.last G []) eps) then (false, X, G)\n"
              "  else let X := X ++ [xk] in let G := G ++ [gk] in\n"
              "       if (Z.of_nat (List.length X) >? maxcor + 1)%Z then (true, List.tl X, List.tl G) else (true, X, G).")
+    return "\n".join(L) + "\n"
+
+
+def gen_freeset():
+    L = ["(* GENERATED from /repo/lbfgsb by harness/translate.py - do not edit *)",
+         "From Coq Require Import List String ZArith Floats.PrimFloat.", "From LBFGSB Require Import Model.FloatVec Model.NumpyOps.", "Import ListNotations.", ""]
     # subspacemin.get_freev: free_vars = (<boolean array expression>).nonzero()[0]
     st_ = ast.parse(_src("subspacemin.py"))
     fn = _func(st_, "get_freev")
@@ -886,9 +910,14 @@ def gen_base():
     m_, tm_ = VecExpr({"x_cp": ("x_cp", "v"), "lb": ("lb", "v"), "ub": ("ub", "v")}).tr(val.value.func.value)
     if tm_ != "bv":
         raise TranslateError("get_freev: the mask is not a boolean array")
-    L.append("Fixpoint bmap2 {A B} (f : A -> B -> bool) (a : list A) (b : list B) : list bool :=\n"
-             "  match a, b with x_ :: a', y_ :: b' => f x_ y_ :: bmap2 f a' b' | _, _ => [] end.")
     L.append(f"Definition free_mask (x_cp lb ub : vec) : list bool := {m_}.")
+    return "\n".join(L) + "\n"
+
+
+def gen_maxstep():
+    L = ["(* GENERATED from /repo/lbfgsb by harness/translate.py - do not edit *)",
+         "From Coq Require Import List String ZArith Floats.PrimFloat.", "From LBFGSB Require Import Model.FloatVec Model.NumpyOps.", "Import ListNotations.", ""]
+    lt0 = ast.parse(_src("linesearch.py"))
     # linesearch.max_allowed_steplength for n_iter > 0 (the iteration-0 rule is pinned in Consts.v):
     #   with np.errstate(...): _mask = ...; _tmp = ...; if _tmp[np.isfinite(_tmp)].size == 0: return cap; return min(cap, np.nanmin(_tmp[np.isfinite(_tmp)]))
     fn = _func(lt0, "max_allowed_steplength")
@@ -920,11 +949,14 @@ def gen_base():
     fin2_, _ = VecExpr(env).tr(r_.args[1].args[0])
     if tf_ != "v" or fin_ != fin2_:
         raise TranslateError("max_allowed_steplength: the emptiness test and the minimum are not over the same array")
-    L.append("Fixpoint bgather (m : list bool) (v : vec) : vec :=\n  match m, v with b_ :: m', e_ :: v' => if b_ then e_ :: bgather m' v' else bgather m' v' | _, _ => [] end.")
-    L.append("Fixpoint bwhere (c : list bool) (a b : vec) : vec :=\n  match c, a, b with c_ :: c', p_ :: a', q_ :: b' => (if c_ then p_ else q_) :: bwhere c' a' b' | _, _, _ => [] end.")
-    L.append("(* np.nanmin of an array without NaN: the minimum (Model/FloatVec.vmin); Python's min(a, b): pymin *)")
     L.append("Definition max_allowed_steplength (x d lb ub : vec) (cap : float) : float :=\n  " + " ".join(lets)
              + f" let fin_ := {fin_} in\n  match fin_ with [] => cap | _ => pymin cap (vmin fin_ cap) end.")
+    return "\n".join(L) + "\n"
+
+
+def gen_cauchyhead():
+    L = ["(* GENERATED from /repo/lbfgsb by harness/translate.py - do not edit *)",
+         "From Coq Require Import List String ZArith Floats.PrimFloat.", "From LBFGSB Require Import Model.FloatVec Model.NumpyOps.", "Import ListNotations.", ""]
     # cauchy.get_cauchy_point, its head: breakpoints t (with two masked assignments), direction d, ordered breakpoint indices
     ct = ast.parse(_src("cauchy.py"))
     fn = _func(ct, "get_cauchy_point")
@@ -954,13 +986,7 @@ def gen_base():
             got["t"] = (nm, "v")
     if set(got) != {"t", "mask", "d", "sorted_t_idx"} or got["sorted_t_idx"][1] != "iv" or got["d"][1] != "v":
         raise TranslateError("get_cauchy_point: head not recognised: " + str(sorted(got)))
-    L.append("From LBFGSB Require Model.FCauchy.")
-    L.append("Fixpoint bgather_idx (m : list bool) (v : list nat) : list nat :=\n  match m, v with b_ :: m', e_ :: v' => if b_ then e_ :: bgather_idx m' v' else bgather_idx m' v' | _, _ => [] end.")
-    L.append("Fixpoint bwhere_s (c : list bool) (a : float) (b : vec) : vec :=\n  match c, b with c_ :: c', q_ :: b' => (if c_ then a else q_) :: bwhere_s c' a b' | _, _ => [] end.")
-    L.append("(* t[mask] = values : the k-th True position of the mask receives the k-th value *)")
-    L.append("Fixpoint bscatter (m : list bool) (vals base : vec) : vec :=\n  match m, base with\n  | true :: m', _ :: base' => match vals with v_ :: vals' => v_ :: bscatter m' vals' base' | [] => base end\n"
-             "  | false :: m', e_ :: base' => e_ :: bscatter m' vals base'\n  | _, _ => base\n  end.")
-    L.append("Fixpoint bset (m : list bool) (a : float) (base : vec) : vec :=\n  match m, base with b_ :: m', e_ :: base' => (if b_ then a else e_) :: bset m' a base' | _, _ => base end.")
+    L.insert(3, "From LBFGSB Require Model.FCauchy.")
     L.append("Definition cauchy_head (x grad lb ub : vec) : vec * vec * list nat :=\n  " + "\n  ".join(lets)
              + f"\n  ({got['t'][0]}, {got['d'][0]}, {got['sorted_t_idx'][0]}).")
     # cauchy.get_cauchy_point, its final move: is_moving = d != 0; x_cp[is_moving] = np.clip(x + t_old * d, lb, ub)[is_moving]
@@ -974,22 +1000,15 @@ def gen_base():
     if tm_ != "bv" or tv_ != "v":
         raise TranslateError("get_cauchy_point: final move of unexpected types")
     L.append(f"Definition cauchy_final_move (t_old : float) (x_cp x d lb ub : vec) : vec :=\n  let is_moving_ := {m_} in bscatter is_moving_ {v_} x_cp.")
-    # the call sites in main.py: is_boxed, the loop guard and the final test
-    mt = ast.parse(_src("main.py"))
-    mf = _func(mt, "minimize_lbfgsb")
-    boxed = [st for st in ast.walk(mf) if isinstance(st, (ast.Assign, ast.AnnAssign)) and ast.unparse(st.targets[0] if isinstance(st, ast.Assign) else st.target) == "is_boxed"]
-    if len(boxed) != 1:
-        raise TranslateError("is_boxed assignment not found")
-    L.append("Local Open Scope string_scope.")
-    L.append("Definition is_boxed_src : string := " + coq_string(ast.unparse(boxed[0].value)) + ".")
-    c2b = sorted({ast.unparse(st) for st in ast.walk(mf) if isinstance(st, ast.Assign) and isinstance(st.value, ast.Call) and ast.unparse(st.value.func) == "clip2bounds"})
-    calls = sorted({ast.unparse(c) for c in ast.walk(mf) if isinstance(c, ast.Call) and ast.unparse(c.func) == "projgr"})
-    L.append("Definition projgr_call_sites_src : list string := [" + "; ".join(coq_string(c) for c in calls) + "].")
-    L.append("Definition clip2bounds_call_sites_src : list string := [" + "; ".join(coq_string(c) for c in c2b) + "].")
     return "\n".join(L) + "\n"
 
 
 GENERATORS["Base.v"] = gen_base
+GENERATORS["BfgsMem.v"] = gen_bfgsmem
+GENERATORS["FreeSet.v"] = gen_freeset
+GENERATORS["MaxStep.v"] = gen_maxstep
+GENERATORS["CauchyHead.v"] = gen_cauchyhead
+
 
 
 def generate():
